@@ -7,6 +7,7 @@ import CdnsVerif.Driver.Cdns
 import CdnsVerif.Driver.Exm
 import CdnsVerif.Driver.Tbl
 import CdnsVerif.Driver.Fs
+import CdnsVerif.Driver.Mrg
 open CdnsVerif.Driver
 
 def dispatch (line : String) : String :=
@@ -20,6 +21,7 @@ def dispatch (line : String) : String :=
   | "exm" :: rest => Exm.handle rest
   | "tbl" :: rest => Tbl.handle rest
   | "fs" :: rest => FsD.handle rest
+  | "mrg" :: rest => Mrg.handle rest
   | _ => "bad-request"
 
 partial def loop (h : IO.FS.Stream) (out : IO.FS.Stream) : IO Unit := do
